@@ -73,6 +73,11 @@ fn jitter_draw() -> u64 {
     r
 }
 
+/// Replace the world that receives jitter notes; returns the previous one.
+pub fn swap_current_world(w: Option<W>) -> Option<W> {
+    CUR_WORLD.with(|c| std::mem::replace(&mut *c.borrow_mut(), w))
+}
+
 pub fn install_seams(mode: SelectMode, jitter_menu: Vec<u64>) {
     SELECT_MODE.with(|m| m.set(mode));
     PREV_N.with(|p| p.set(2));
